@@ -214,7 +214,7 @@ PROPS = {
                 proofs=["pad_counter", "pad_counter_tlaps"],
                 steps=[{"cmd": "c07", "judge": "J_C07"}]),
     "C08": dict(T("14 idle histories (new, after ok / invalid message / invalid escape - also with error bytes ending in 0x1b -, after reset / finalize - also called while noise or a partial start sequence is pending) x all noise strings over {1b,01,55} up to length 7/9 + random noise over all byte values (incl. partial start sequences) x 5 payloads; seven histories ending in an out-of-memory error of ArrayBuf<8>; every cut point of 265+ frames "
-                  "followed by 3 frames; noise runs of 2^16-1 / 2^16 / 70001 bytes (thorough: to 2^18+1) on a fresh decoder and behind a frame; the antecedent (no start sequence in noise / no escape in progress) is evaluated by the monitor"),
+                  "followed by 3 frames; noise runs of 2^16-1 / 2^16 / 70001 bytes (thorough: to 2^17) on a fresh decoder and behind a frame; the antecedent (no start sequence in noise / no escape in progress) is evaluated by the monitor"),
                 mc={"quick": ["resync_noise", "resync_calls", "contract_noise"], "thorough": ["resync_noise", "resync_calls", "contract_noise"]},
                 proofs=["matcher"],
                 steps=[{"cmd": "c08", "judge": "J_C08"},
@@ -262,7 +262,7 @@ PROPS = {
                 mc={"quick": ["reader_faults_1", "reader_faults_2", "reader_faults_3", "reader_faults_eh"], "thorough": ["reader_faults_1", "reader_faults_2", "reader_faults_3", "reader_faults_eh"]},
                 steps=[{"cmd": "c11", "judge": "J_C11"}]),
     "C12": dict(P("every 1- and 2-byte TLF, a strided (quick) / exhaustive (thorough) set of 3-byte TLFs, 2- and 3-byte TLFs followed by exactly the declared number of data bytes, crafted 4-12 byte TLFs around 2^32 and the own-size subtraction, 16-33 byte TLFs beyond 2^64, 17-300 byte TLFs with zero nibbles, integers of width 0-9 with "
-                  "boundary leading bytes, all boolean bytes - each at 8 field positions of a message template, observed through the streaming parser's events"),
+                  "boundary leading bytes, the values 1 and 7 in every width and signedness, all boolean bytes - each at 13 field positions of a message template (incl. the tag and the value inside the time structure), observed through the streaming parser's events; valid files with octet strings of 2^16 .. 2^17 bytes"),
                 mc={"quick": ["tlf_exact", "tlf_long"], "thorough": ["tlf_exact", "tlf_long", "grammar"]},
                 steps=[{"cmd": "c12", "judge": "J_C12", "cfg": "JudgeP.cfg"}]),
     "C13": dict(P("the same corruption families as C04; next() is called until None (at most |x|+8 items) and 5 more times; record = (|x|, items, items after the end, error positions)"),
